@@ -54,7 +54,8 @@ fn main() {
 			}
 		}
 		if let Ok(mut f) = std::fs::OpenOptions::new().create(true).append(true).open(dir.join("dumps.jsonl")) {
-			let _ = writeln!(f, "{report}");
+			// one write(2) for the whole line: a reader (or a SIGKILL) never sees half of it
+			let _ = f.write_all(format!("{report}\n").as_bytes());
 		}
 		std::thread::sleep(std::time::Duration::from_secs(30));
 	}
